@@ -9,18 +9,19 @@ LEAN_MODULES = ["OsmoVerif.Props.C08"]
 DRIVER_MODULES = ["TdmaSched"]
 LEAN_MODEL_MODULES = ["OsmoVerif.Model.TdmaSched", "OsmoVerif.Spec.TdmaSched", "OsmoVerif.Lemmas.TdmaSchedBasic",
                       "OsmoVerif.Lemmas.TdmaSchedSort", "OsmoVerif.Lemmas.TdmaSchedOps", "OsmoVerif.Lemmas.TdmaSchedSpec",
-                      "OsmoVerif.Lemmas.TdmaSched"]
+                      "OsmoVerif.Lemmas.TdmaSchedFly", "OsmoVerif.Lemmas.TdmaSchedExec", "OsmoVerif.Lemmas.TdmaSched"]
 ASSUMPTIONS = [
-    "theorems are about OsmoVerif.Model.TdmaSched: hand model, statement by statement, of wrap_bucket, tdma_schedule, tdma_schedule_set, tdma_sched_advance, tdma_sched_flag_scan, _tdma_sched_bucket_sort (the exchange sort on seq[]), tdma_sched_execute (incl. the rc < 0 path), tdma_sched_reset, tdma_sched_dump, with C widths, array capacities and an explicit out-of-bounds / NULL-call outcome",
-    "callbacks are identified by an id and do not re-enter the scheduler (no tdma_schedule*/reset from inside a callback); the exactly-once theorems assume every pending and scheduled callback reports success (rc >= 0; decidable predicate Inv/OpOk), the error path is modelled, compared, and covered by execute_error_keeps_bucket",
-    "admissible operations (OpOk): arguments within the C parameter types, item sets terminated by SCHED_END_SET() with frame offsets below 256 (no uint8_t wrap of ++frame_offset); runs_exactly_at additionally: offset < 25, no reset between scheduling and execution, the item distinguishable (not pending, not scheduled again), and the firmware discipline execute-then-advance once per frame (sync.c frame interrupt) with scheduling for the current frame only before its execute; the ring statement pending_runs_ring needs no discipline",
-    "model tied to the current tree by differential execution of the unchanged tdma_sched.c (compiled for the host; l1s, console and recording callbacks supplied by harness/c/c08_harness.c) on structured random histories: buckets filled to capacity and beyond, > 25 advances, equal/negative/extreme priorities, offsets 0..300, out-of-width arguments, failing callbacks, multi-frame sets incl. overflow in mid-set and elements after END_SET, stale flags, every priority pattern over {-1,0,1}^<=6 and {0,1}^8",
+    "theorems are about OsmoVerif.Model.TdmaSched: hand model, statement by statement, of wrap_bucket, tdma_schedule, tdma_schedule_set, tdma_sched_advance, tdma_sched_flag_scan, _tdma_sched_bucket_sort (the exchange sort on seq[], all TDMASCHED_NUM_CB entries initialised), tdma_sched_execute (seq[] computed once before the loop, bucket->num_items re-read on every iteration, the rc < 0 path, the final num_items = 0), tdma_sched_reset, tdma_sched_dump, with C widths (cur_bucket is stored through the uint8_t conversion; cur_bucket < 25 is proved from the statement cur_bucket = wrap_bucket(1), not assumed), array capacities and an explicit out-of-bounds / NULL-call outcome; the execute loop recurses on seq[i..], so it makes at most TDMASCHED_NUM_CB calls and seq[TDMASCHED_NUM_CB] is the out-of-bounds outcome (no fuel)",
+    "callbacks are identified by an id; a callback may re-enter the scheduler while tdma_sched_execute() runs ('on the fly' scheduling): when invoked it makes the tdma_schedule()/tdma_schedule_set() calls of its script (Env.scripts: fixed per callback id, any offsets, the scheduled callbacks may be scripted themselves, a callback may re-schedule itself) on the live scheduler and the return values are recorded; callbacks do not call execute/advance/reset and their scripts do not depend on their parameters or on earlier return values; EnvOk (decidable): every scripted call is an admissible operation; NoReentry (decidable, scripts empty) is the special case of the first version of the model",
+    "the exactly-once theorems assume every pending and scheduled callback reports success (rc >= 0; decidable predicates Inv/OpOk/EnvOk); the error path is modelled, compared, and covered by execute_error_keeps_bucket (state = what the callbacks that ran scheduled from inside, bucket not cleared)",
+    "admissible operations (OpOk): arguments within the C parameter types, item sets terminated by SCHED_END_SET() with frame offsets below 256 (no uint8_t wrap of ++frame_offset); runs_exactly_at / onfly_runs_exactly_at additionally: offset < 25, no reset between scheduling and execution, the item distinguishable (not pending, not scheduled again by an operation or - NoFlyPlaces, a decidable statement about the calls actually made from inside during the history - by a callback), and the firmware discipline execute-then-advance once per frame (sync.c frame interrupt) with scheduling for the current frame only before or during its execute; the ring statement pending_runs_ring needs no discipline",
+    "model tied to the current tree by differential execution of the unchanged tdma_sched.c (compiled for the host; l1s, console and recording/scripted callbacks supplied by harness/c/c08_harness.c: a scripted callback makes its calls on the REAL scheduler from inside the REAL tdma_sched_execute()) on structured random histories: buckets filled to capacity and beyond, long histories of 262..626 advances (cur_bucket beyond 255 and 511 advances, items pending across) incl. one from every ring position, equal/negative/extreme priorities, offsets 0..300, out-of-width arguments, failing callbacks, multi-frame sets incl. overflow in mid-set and elements after END_SET, stale flags, scripted callbacks (offset 0 and later, sets, nesting, overflow from inside, self re-scheduling, cycles, failing scripted callbacks), every priority pattern over {-1,0,1}^<=6 and {0,1}^8",
     "TDMASCHED_NUM_FRAMES / TDMASCHED_NUM_CB, the field widths and the SCHED_END_FRAME()/SCHED_END_SET()/SCHED_ITEM()/SCHED_ITEM_DT() expansions are regenerated from the header on every run and used by the theorems (gen_consts)",
 ]
 MANIFEST = {
-    "text": "Lean 4 theorems over a statement-level model of tdma_sched.c, from every well-formed state (any ring position) and every list of admissible operations: step_safe (no out-of-bounds index, no NULL call, invariant preserved), sched_refines / sched_refines_run (every operation does to the pending work what the abstract 'items due in d frames' machine does, same return values, executed callbacks a priority-sorted permutation of the items due), prio_order (for the actual exchange sort), executed_empty, overflow_reported / overflow_reported_set (error return, state unchanged resp. every frame keeps its items), set_placement (k-th frame of a set lands k frames after the first), pending_runs_ring (ring statement, no discipline), pending_runs_exactly_at / runs_exactly_at / set_runs_exactly_at (exactly once, at the execute after exactly N advances, with its parameters, 0 times anywhere else), nothing_else_runs, execute_error_keeps_bucket; constants regenerated from the header; the model is compared with the unchanged C code on structured random histories and an independent Python reference of the property is evaluated on the outputs of the real C code (instrumented with ASan/UBSan bounds)",
-    "note": "trusted: Lean kernel (+propext, Classical.choice, Quot.sound), gen/tdma_sched.py, the differential harness harness/c/c08_harness.c (supplies l1s, console, recording callbacks); assumed: callbacks do not re-enter the scheduler; premises of the exactly-once theorems: callbacks report success, offsets < 25, execute-then-advance discipline, no reset in between, distinguishable item; modelled not verified: C integer conversion rules as written in Model/TdmaSched.lean. Corner cases of the real code outside the premises are pinned by examples (unstable order of equal priorities, offset >= 25 aliases, scheduling for the executed current frame waits 25 frames, an overflowing set keeps its first items, reset keeps the current bucket, a failing callback leaves the bucket scheduled, tdma_schedule() inherits stale .flags)",
-    "technique": "Lean 4 proof by refinement (invariant + induction over op lists) over a C-width model with explicit array bounds; differential correspondence with the compiled C; property oracle on the real code",
+    "text": "Lean 4 theorems over a statement-level model of tdma_sched.c with callbacks that may schedule from inside tdma_sched_execute(), from every well-formed state (any ring position) and every list of admissible operations: step_safe / history_safe (no out-of-bounds index, no NULL call, invariant preserved, scripted callbacks of any nesting included), sched_refines / sched_refines_run (every operation does to the pending work what the abstract 'items due in d frames' machine does, same return values; for execute: callbacks that do not re-enter), execute_on_the_fly (execute with re-entrant callbacks is an admissible on-the-fly execution: priority-sorted permutation of the items due at the start, then the items added to the current frame in the order added, calls from inside act like calls from outside), prio_order (for the actual exchange sort), executed_empty, overflow_reported / overflow_reported_set / overflow_inside_reported / call_inside_is_call (error return, state unchanged resp. every frame keeps its items, also from inside a callback), set_placement, pending_runs_ring (ring statement, no discipline), pending_runs_exactly_at / runs_exactly_at / set_runs_exactly_at (exactly once, at the execute after exactly N advances, with its parameters, 0 times anywhere else), onfly_runs_exactly_at (the same for an item scheduled from inside a callback of frame F for offset N >= 1: frame F+N), onfly_same_frame (offset 0 from inside: exactly once in the same execute, after the items pending at its start, in append order, never again), onfly_nothing_lost (everything the frame held when it was cleared has run), nothing_else_runs, execute_error_keeps_bucket; constants regenerated from the header; the model is compared with the unchanged C code on structured random histories (incl. > 512 advances and scripted callbacks) and an independent Python reference of the property is evaluated on the outputs of the real C code (instrumented with ASan/UBSan bounds)",
+    "note": "trusted: Lean kernel (+propext, Classical.choice, Quot.sound), gen/tdma_sched.py, the differential harness harness/c/c08_harness.c (supplies l1s, console, recording and scripted callbacks); assumed: callbacks only call tdma_schedule/tdma_schedule_set (not execute/advance/reset) and what they call is fixed per callback id; premises of the exactly-once theorems: callbacks report success, offsets < 25, execute-then-advance discipline, no reset in between, distinguishable item; modelled not verified: C integer conversion rules as written in Model/TdmaSched.lean. Corner cases of the real code outside the premises are pinned by examples (unstable order of equal priorities, items scheduled on the fly for the current frame run in append order not by priority, a callback re-scheduling itself for the current frame is refused at the 8th call, offset >= 25 aliases, scheduling for the executed current frame waits 25 frames, an overflowing set keeps its first items, reset keeps the current bucket, a failing callback leaves the bucket scheduled, tdma_schedule() inherits stale .flags)",
+    "technique": "Lean 4 proof by refinement (invariant + induction over op lists and over the execute loop) over a C-width model with explicit array bounds; differential correspondence with the compiled C; property oracle on the real code",
     "design_ref": "DESIGN.md section 5 C08",
 }
 
